@@ -213,6 +213,28 @@ def main():
                 pass
             except Exception as e:  # a lemma that can no longer be STATED over the contracts (renamed clause ...): never a silent pass
                 errors.append(f"contracts.{mod}.lemmas(): {type(e).__name__}: {e}\n{traceback.format_exc(limit=6)}")
+    regex_names = []
+    if not a.no_proof:
+        # regex-LANGUAGE facts about the patterns of the repository (contracts/regex_facts.py, pyvc/regex_z3.py): a contract module
+        # exposes them as regex_facts() -> (assumptions, [(label, hyps, goal, kind, note)]); obligation names <prop>/regex/<label>
+        try:
+            pm = importlib.import_module(f"contracts.{prop}")
+            if hasattr(pm, "regex_facts"):
+                from pyvc.engine import Oblig
+
+                r_assume, r_facts = pm.regex_facts()
+                for lab, hyps, goal, kind, note in r_facts:
+                    if not a.only or a.only in f"{prop}/regex/{lab}":
+                        (covers if kind == "cover" else obligs).append(Oblig(f"{prop}/regex/{lab}", list(hyps), goal, kind, note))
+                        regex_names.append(f"{prop}/regex/{lab}")
+                if regex_names:
+                    assumptions |= set(r_assume)
+        except ModuleNotFoundError:
+            pass
+        except Unsupported as e:
+            errors.append(f"{prop}/regex: unsupported: {e}")
+        except Exception as e:  # a repository module that no longer imports / runs: never a violation
+            errors.append(f"{prop}/regex: engine error: {type(e).__name__}: {e}\n{traceback.format_exc(limit=6)}")
     if used_lemmas:
         from pyvc import lemmas as _lm
         from pyvc.engine import Oblig
@@ -235,7 +257,9 @@ def main():
 
     # ---------------------------------------------------------------- induction lemmas: schemas checked by Lean
     lean_map = {"tree_induction": ("Lemmas.lean", ["tree_induction", "all_nodes_below_root"]), "count-of-a-singleton-mask": ("Lemmas.lean", ["count_singleton"]),
-                "cumsum-of-nonnegatives": ("Lemmas.lean", ["cumsum_monotone"]), "count-of-two-marked-positions": ("Lemmas.lean", ["count_monotone", "count_two"]), "traverse client rule": ("TraverseRule.lean", ["inv_of_reach", "traverse_rule_sound"])}
+                "cumsum-of-nonnegatives": ("Lemmas.lean", ["cumsum_monotone"]), "count-of-two-marked-positions": ("Lemmas.lean", ["count_monotone", "count_two"]),
+                "traverse client rule": ("TraverseRule.lean", ["inv_of_reach", "traverse_rule_sound"]),
+                "whitespace-token lemma": ("Tokens.lean", ["token_split_unique", "tokens_unique"])}
     used_files = {}
     for a_ in assumptions:
         if a_.startswith("assumed-lemma:"):
@@ -322,6 +346,12 @@ def main():
             rec["failing_input"] = bviol[match]
             json.dump(rec, open(path, "w"), indent=1, default=str)
             lines.append(f"VIOLATION property={prop} replay={path} obligation={name}")
+        elif r.get("kind") == "regex" and r.get("model"):
+            from contracts.regex_facts import counter_text
+
+            rec["failing_input"] = dict(carrier="regex", clause=name, input=dict(text=counter_text(r["model"])), note=r.get("note"))
+            json.dump(rec, open(path, "w"), indent=1, default=str)
+            lines.append(f"VIOLATION property={prop} replay={path} obligation={name} text={counter_text(r['model'])!r}")
         else:
             json.dump(rec, open(path, "w"), indent=1, default=str)
             lines.append(f"VIOLATION property={prop} replay={path} obligation={name} no-failing-input-found")
@@ -372,6 +402,9 @@ def main():
         samples=[dict(obligation=n, instances=len(results[n]), backend=results[n][0]["backend"]) for n in sorted(results)[:8]] or [dict(note="no obligations")],
         machinery_errors=errors,
     )
+    if regex_names:
+        cov["regex_language_facts"] = [dict(obligation=n, verdict=results[n][0]["verdict"], backend=results[n][0]["backend"], seconds=round(results[n][0]["seconds"], 2),
+                                            fact=results[n][0].get("note")) for n in regex_names if n in results]
     if bctx is not None:
         cov["bounded"] = dict(
             label="bounded stand-in: run-time evaluation on the real code, never counted as proved",
